@@ -56,6 +56,8 @@ type env struct {
 	maxCliHead zerocopy.Headroom
 	seenTCP    map[string]struct{}
 	seenUDP    map[string]struct{}
+	seenRelay  map[string]struct{}
+	panicSigs  map[string]string
 }
 
 var tcpSources = []netip.AddrPort{
@@ -93,7 +95,7 @@ func newEnv(tmp string) *env {
 	if err := os.MkdirAll(tmp, 0o700); err != nil {
 		fatalf("environment: %v", err)
 	}
-	e := &env{log: zap.NewNop(), tmp: tmp, seenTCP: map[string]struct{}{}, seenUDP: map[string]struct{}{}}
+	e := &env{log: zap.NewNop(), tmp: tmp, seenTCP: map[string]struct{}{}, seenUDP: map[string]struct{}{}, seenRelay: map[string]struct{}{}, panicSigs: map[string]string{}}
 
 	// domain set / prefix set files (every matcher representation)
 	var small, big strings.Builder
@@ -264,6 +266,17 @@ func (w *worker) useAddr(a conn.Addr, user string, udp bool, payload []byte) {
 		}
 	}
 	if !udp {
+		// the request an outbound client writes depends on the address only through its
+		// kind, name length and port (and on the payload through its length): once per such shape
+		nameLen := 0
+		if a.IsDomain() {
+			nameLen = len(a.Domain())
+		}
+		rk := fmt.Sprintf("%s|%d|%d|%d", addrClass(a), nameLen, a.Port(), len(payload))
+		if _, ok := w.env.seenRelay[rk]; ok {
+			return
+		}
+		w.env.seenRelay[rk] = struct{}{}
 		for i := range w.env.tcpOut {
 			o := &w.env.tcpOut[i]
 			w.ops++
@@ -283,6 +296,12 @@ func (w *worker) useAddr(a conn.Addr, user string, udp bool, payload []byte) {
 func (w *worker) protectRoute(nr *namedRouter, info router.RequestInfo, udp bool, f func()) {
 	defer func() {
 		if r := recover(); r != nil {
+			ck := nr.name + "|" + fmt.Sprint(r)
+			if sig, ok := w.env.panicSigs[ck]; ok {
+				if _, seen := w.viols[sig]; seen {
+					return // same router, same panic value: already reported by this worker
+				}
+			}
 			pc := classifyPanic(r)
 			net := "tcp"
 			if udp {
@@ -299,6 +318,7 @@ func (w *worker) protectRoute(nr *namedRouter, info router.RequestInfo, udp bool
 				}
 				sig = "port0-bitset-criterion:" + crit
 			}
+			w.env.panicSigs[ck] = sig
 			w.failExtra(sig, fmt.Sprintf("route matching panicked (%v) for a %s request from %s to %s under router %q [%s]; call chain: %s",
 				r, net, info.SourceAddrPort, info.TargetAddr.String(), nr.name, nr.desc, strings.Join(pc.frames, " <- ")),
 				map[string]any{"router": nr.name, "network": net, "source": info.SourceAddrPort.String(), "target": info.TargetAddr.String()})
